@@ -333,6 +333,82 @@ def shape_of(me):
     return sorted(set(tags))
 
 
+# ------------------------------------------------------------------------------- known finding D8
+#
+# A string literal passed as an ARGUMENT to a parameterised rule travels as a `str` subclass that carries its
+# own parse function; the driver's memo compares such wrappers BY STRING VALUE.  Two wrappers for the same text
+# written at two levels of a chain, one compiled with "skip ignorables after it" and one without (a grammar that
+# declares `ignore` extending one that does not), are therefore one memo entry when they are asked for at the
+# same position: whichever is evaluated first answers for both.  A genuine defect (DESIGN 10.13, D8), recorded in
+# known_findings.json rather than repaired.  A mismatch against the model is attributed to it ONLY IF it
+# disappears when every literal argument is routed through a rule of its own (`Lq = ";"`, passed by name and
+# therefore compared by identity) -- any other mismatch on such a chain is reported as usual.
+
+D8_TAG = 'equal-literal-arguments-at-levels-with-and-without-ignore'
+D8_KEY = 'lineage:known:D8:' + D8_TAG
+
+
+def _d8_shape(levels):
+    in_force = False
+    with_, without = set(), set()
+    for lv in levels:
+        if any(it['k'] == 'ignore' or it.get('ignore') for it in lv['items']):
+            in_force = True
+        for it in lv['items']:
+            for ex in spec.item_exprs(it):
+                for n in spec.walk(ex):
+                    if n[0] == 'call':
+                        for a in n[2:]:
+                            if a[0] == 'lit':
+                                (with_ if in_force else without).add(a[1])
+    return bool(with_ & without)
+
+
+def _defuse_literal_arguments(levels):
+    """The same chain with every literal argument `T("v")` rewritten to `T(Lq)`, `Lq = "v"` a new rule of the same level."""
+    import copy
+    out = []
+    for li, lv in enumerate(levels):
+        items = copy.deepcopy(lv['items'])
+        alias = {}
+
+        def fix(e):
+            if e[0] == 'call':
+                for i in range(2, len(e)):
+                    if e[i][0] == 'lit':
+                        nm = alias.setdefault(e[i][1], 'Lq%d_%d' % (li, len(alias)))
+                        e[i] = ['ref', nm]
+            for c in spec.children(e):
+                fix(c)
+        for it in items:
+            for ex in spec.item_exprs(it):
+                fix(ex)
+        for v, nm in alias.items():
+            items.append({'k': 'rule', 'name': nm, 'expr': ['lit', v]})
+        out.append({'items': items})
+    return out
+
+
+def _attributed_to_d8(me, op, want, ctx):
+    levels = me['levels']
+    if not _d8_shape(levels):
+        return False
+    mods = []
+    try:
+        for i, lv in enumerate(_defuse_literal_arguments(levels)):
+            name = '%sk%d' % (U.PREFIX, i)
+            desc = spec.render_module({'named': True, 'extends': i > 0, 'items': lv['items']}, name,
+                                      '%sk%d' % (U.PREFIX, i - 1) if i else None)
+            mods.append(U.compile_desc(desc))
+        got = F.norm_names(_call(mods[-1], op['entry'], op['text'], op['full'], ctx))
+    except Exception:
+        return False
+    finally:
+        for i in range(len(levels)):
+            sys.modules.pop('%sk%d' % (U.PREFIX, i), None)
+    return got == want
+
+
 def execute(plan, schedule=None, refs=None):
     U.purge_registry()
     gc_was = gc.isenabled()
@@ -443,8 +519,13 @@ def execute(plan, schedule=None, refs=None):
                         env.count('judged_through_sibling')
                     _count_probes(env, me, got)
                     if got != want:
-                        viol.append({'check': 'model', 'sub': 'parse', 'op_index': opi, 'op': op, 'mod': mid,
-                                     'shape': shape_of(me), 'impl': got, 'model': want})
+                        v = {'check': 'model', 'sub': 'parse', 'op_index': opi, 'op': op, 'mod': mid,
+                             'shape': shape_of(me), 'impl': got, 'model': want}
+                        if _attributed_to_d8(me, op, want, ctx):
+                            v['known'] = D8_KEY
+                            v['shape'] = [D8_TAG]
+                            env.count('mismatch_attributed_to_known_finding_D8')
+                        viol.append(v)
             elif kind == 'probe_all':
                 pass
             if kind != 'parse':
@@ -522,6 +603,8 @@ def run_one(verif_seed, index, tier='quick'):
 
 def finding_key(v):
     viol = v['violation']
+    if viol.get('known'):
+        return viol['known']
     return 'lineage:%s%s:%s' % (viol.get('check'), '/' + viol['sub'] if viol.get('sub') else '',
                                '+'.join(viol.get('shape', [])) or 'plain')
 
